@@ -33,6 +33,11 @@ QUICK = [
     dict(kind='semaphore', prim='lock', procs=[2, 0], threads=1, rounds=3, hold=0.004, watchdog=WD),
     dict(kind='semaphore', prim='rlock', procs=[2, 0], threads=1, rounds=2, hold=0.004, watchdog=WD),
     dict(kind='bounded', k=2, j=2, watchdog=WD),
+    # the forking thread HOLDS the lock (RLock / Lock / a Condition's lock) while the participant processes are forked
+    dict(kind='fork_held', prim='rlock', procs=[0, 0], threads=0, rounds=2, watchdog=WD),
+    dict(kind='fork_held', prim='lock', procs=[0, 2], threads=0, rounds=2, watchdog=WD),
+    dict(kind='fork_held', prim='cond', procs=[0, 0], threads=0, watchdog=WD),
+    dict(kind='fork_held', prim='cond_lock', procs=[0, 2], threads=0, watchdog=WD),
 ]
 
 
@@ -64,6 +69,10 @@ def _thorough():
             dict(kind='semaphore', prim='bounded', k=2, procs=[2, 0, 0], threads=2, rounds=6, hold=0.003, watchdog=WD, rep=rep),
             dict(kind='semaphore', prim='lock', procs=[3, 0, 0], threads=2, rounds=8, hold=0.002, watchdog=WD, rep=rep),
             dict(kind='semaphore', prim='rlock', procs=[2, 0, 0], threads=2, rounds=6, hold=0.002, watchdog=WD, rep=rep),
+            dict(kind='fork_held', prim='rlock', procs=[0, 2, 0], threads=1, rounds=4, watchdog=WD, rep=rep),
+            dict(kind='fork_held', prim='lock', procs=[0, 0, 0], threads=0, rounds=4, watchdog=WD, rep=rep),
+            dict(kind='fork_held', prim='cond', procs=[0, 2], threads=1, watchdog=WD, rep=rep),
+            dict(kind='fork_held', prim='cond_lock', procs=[0, 0, 0], threads=0, watchdog=WD, rep=rep),
             dict(kind='bounded', k=1, j=1, watchdog=WD, rep=rep),
             dict(kind='bounded', k=5, j=3, watchdog=WD, rep=rep),
         ]
@@ -72,7 +81,7 @@ def _thorough():
 
 THOROUGH = _thorough()
 
-COND_KINDS = ('notify_all', 'notify_all_mixed', 'notify_one', 'timeout', 'event')
+COND_KINDS = ('notify_all', 'notify_all_mixed', 'notify_one', 'timeout', 'event', 'fork_held')
 
 
 # ------------------------------------------------------------------ the monitors
@@ -108,7 +117,7 @@ def monitor(record):
                 % (sc.get('startup', STARTUP), o.get('hung_phase'))]
     parts = o.get('parts', [])
     lost = []
-    if kind in ('notify_all', 'notify_all_mixed', 'event') and ('notify_s' in o or 'set_s' in o):
+    if kind in ('notify_all', 'notify_all_mixed', 'event', 'fork_held') and ('notify_s' in o or 'set_s' in o):
         lost = [p['id'] for p in parts if not p.get('done') and p.get('timeout') is None]
     if lost:      # the notify_all / set() call itself returned, the waiters did not
         out.append('lost-wakeup: untimed waiters announced before %s never returned (%ss watchdog): %s'
@@ -222,6 +231,39 @@ def monitor(record):
                            % (oa.get('is_mine'), oa.get('count'), oa.get('value')))
             if 'value_after_owner_release' in o and o['value_after_owner_release'] != 1:
                 out.append('sem-value: RLock value %s after the owner released twice' % o['value_after_owner_release'])
+
+    if kind == 'fork_held':
+        prim = sc.get('prim', 'rlock')
+        what = {'rlock': 'an RLock', 'lock': 'a Lock', 'cond': 'the RLock of a Condition', 'cond_lock': 'the Lock of a Condition'}.get(prim, prim)
+        for p in parts:
+            if p.get('try0'):
+                out.append('fork-two-holders: %s was forked by the thread holding %s; its non-blocking acquire SUCCEEDED while the '
+                           'forking process was still inside (the child\'s copy of the lock object said count=%s is_mine=%s; occupancy '
+                           'seen inside: %s)' % (p['id'], what, p.get('count0'), p.get('is_mine0'), p.get('inside_with_holder')))
+        if o.get('max_inside', 0) > 1:
+            out.append('concurrency: %d participants inside the section guarded by %s (one of them the forking process)'
+                       % (o['max_inside'], what))
+        if 'value_while_held' in o and o['value_while_held'] != 0:
+            out.append('sem-value: the semaphore of %s has value %s while the forking process holds it' % (what, o['value_while_held']))
+        hw = o.get('holder_while_held')
+        if hw is not None and (hw.get('is_mine') is not True or hw.get('count') != 1):
+            out.append('sem-value: the holder sees is_mine=%s count=%s after forking' % (hw.get('is_mine'), hw.get('count')))
+        if prim in ('rlock', 'lock') and 'value_final' in o and not o.get('hung'):
+            if o.get('initial_value') != 1 or o.get('value_final') != 1 or o.get('inside_final') != 0 \
+                    or o.get('entries') != o.get('expected_entries') or o.get('guard_final') != 1:
+                out.append('sem-value: %s has value %s initially and %s at the end; occupancy %s, %s of %s sections entered'
+                           % (what, o.get('initial_value'), o.get('value_final'), o.get('inside_final'), o.get('entries'), o.get('expected_entries')))
+            for p in done:
+                if p.get('localmax', 0) > 1:
+                    out.append('concurrency: %s saw %d inside %s' % (p['id'], p['localmax'], what))
+        if prim in ('cond', 'cond_lock'):
+            for p in done:
+                if p.get('r') is not True:
+                    out.append('untimed-wait: untimed waiter %s (forked while the condition\'s lock was held) returned %r after notify_all'
+                               % (p['id'], p.get('r')))
+            if not o.get('hung'):
+                _quiet(o.get('after'), 'after every waiter returned', False, out)
+                _quiet(o.get('final'), 'after reconciliation', True, out)
 
     if kind == 'bounded':
         k, j = sc.get('k', 2), sc.get('j', sc.get('k', 2))
